@@ -1688,6 +1688,11 @@ def vec_method(it, obj, name, args, kw):
             return Term.const((max if name == "max" else min)(v.cval() for v in vals))
         if vals and all(same(v, vals[0]) for v in vals[1:]):
             return vals[0]
+        # one element provably dominates the others by interval separation (e.g. the ends of sorted, non-nested rows): it is the extreme
+        for i, v in enumerate(vals):
+            others = vals[:i] + vals[i + 1:]
+            if (name == "max" and all(v.lo >= o.hi for o in others)) or (name == "min" and all(v.hi <= o.lo for o in others)):
+                return v
         return fatom("v" + name, vals)
     if name == "median":
         vals = [T(x) for x in obj.v if not is_nan(x)]
